@@ -60,10 +60,14 @@ type script struct {
 var (
 	app       *fiber.App
 	cur       script
-	curEnd    string // how /go ends: "" / "to" = To("/show"); "ok" = plain 200 answer; "back" = Back() without Referer or fallback (error, no redirect)
+	curEnd    string // how /go ends: "" / "to" = To("/show"); "ok" = plain 200 answer; "back" = Back() without Referer or fallback (error, no redirect);
+	// the other completing finishers: "backref" = Back() with a Referer header, "backfb" = Back("/show"), "route" = Route("show"),
+	// "routep" = Route("showp", Params), "routeq" = Route("show", Queries) - the model treats every completing finisher alike
 	relayMode string // how /relay re-attaches the messages it received
 	relaySeen string // what the /relay handler saw ("nohandler" if it did not run)
 )
+
+var validEnd = map[string]bool{"to": true, "ok": true, "back": true, "backref": true, "backfb": true, "route": true, "routep": true, "routeq": true}
 
 func hx(s string) string {
 	if s == "" {
@@ -92,12 +96,24 @@ func setup() {
 			return c.SendString("stay") // data attached, redirect never completed
 		case "back":
 			return r.Back() // no Referer, no fallback: ErrRedirectBackNoFallback
+		case "backref":
+			return r.Back() // the request carries a Referer
+		case "backfb":
+			return r.Back("/show")
+		case "route":
+			return r.Route("show")
+		case "routep":
+			return r.Route("showp", fiber.RedirectConfig{Params: fiber.Map{"id": "7"}})
+		case "routeq":
+			return r.Route("show", fiber.RedirectConfig{Queries: map[string]string{"a": "1", "b": "x y"}})
 		}
 		return r.To("/show")
 	})
-	app.Get("/show", func(c fiber.Ctx) error {
+	show := func(c fiber.Ctx) error {
 		return c.SendString("ck=" + gen.Hex(c.Cookies("fiber_flash")) + ";m=" + seenBy(c))
-	})
+	}
+	app.Get("/show", show).Name("show")
+	app.Get("/showp/:id", show).Name("showp")
 	// the re-flash pattern: the handler that consumes the messages redirects again and re-attaches
 	// what it received (relayMode: same = as received, in order, same levels -> identical bytes;
 	// rev = in reverse order; chg = value of the first message changed)
@@ -362,7 +378,11 @@ func ish(steps []script, ends []string) []string {
 	var obs []string
 	for i, s := range steps {
 		cur, curEnd = s, ends[i]
-		raw := serve([]byte("GET /go" + queryOf(s) + " HTTP/1.1\r\nHost: example.com\r\n\r\n"))
+		ref := ""
+		if ends[i] == "backref" {
+			ref = "Referer: http://example.com/show\r\n"
+		}
+		raw := serve([]byte("GET /go" + queryOf(s) + " HTTP/1.1\r\nHost: example.com\r\n" + ref + "\r\n"))
 		st := 0
 		if r, err := parseResp(raw); err == nil {
 			st = r.status
@@ -575,7 +595,7 @@ func runCase(w *gen.Writer, id, kind string, in []string) {
 				f = append(f, cols[j][i])
 			}
 			sc, ok := parseScript(f)
-			if !ok || (cols[6][i] != "to" && cols[6][i] != "ok" && cols[6][i] != "back") {
+			if !ok || !validEnd[cols[6][i]] {
 				return
 			}
 			steps = append(steps, sc)
